@@ -397,6 +397,10 @@ func main() {
 		c09Main(r)
 		return
 	}
+	if *prop == "C01" {
+		c01Main(r)
+		return
+	}
 	if *prop == "C10" {
 		if *debugHist != "" {
 			c := c10cfg{bTrustsA: false, seed: "none"}
